@@ -48,6 +48,7 @@ type Line struct {
 	During   bool              `json:"during"`
 	Point    string            `json:"point"`
 	Note     string            `json:"note"`
+	Par      bool              `json:"par"` // parallel-clients stage: database file and watch events are not observed per operation
 }
 
 type crashSignal struct{}
